@@ -36,6 +36,9 @@ var (
 
 	// errConnAborted replaces aborted error to prevent client IP logging
 	errConnAborted = errors.New("aborted")
+
+	// errNetOp replaces a network operation error that has no underlying cause
+	errNetOp = errors.New("network error")
 )
 
 func generalizeErr(err error) error {
@@ -62,7 +65,15 @@ func generalizeErr(err error) error {
 		}
 	}
 
-	// if it is not a well known error, return it
+	// If it is not a well known error, return it - but never with the endpoint addresses that a
+	// *net.OpError carries in its text ("read tcp <station>:443-><client>:port: ..."): keep only
+	// the underlying cause.
+	if opErr, ok := err.(*net.OpError); ok {
+		if opErr.Err != nil {
+			return opErr.Err
+		}
+		return errNetOp
+	}
 	return err
 }
 
